@@ -227,6 +227,12 @@ func (c *checkSchema) ensureShortcutKeysAreValid(node *schema.ObjectNode) error 
 }
 
 func actualRootType(s, root *schema.Schema) json.Type {
+	return actualRootTypeVisiting(s, root, map[string]struct{}{})
+}
+
+// actualRootTypeVisiting resolves the root type through type references; visiting
+// holds the type names on the current path, so an alias cycle ends as "mixed".
+func actualRootTypeVisiting(s, root *schema.Schema, visiting map[string]struct{}) json.Type {
 	t := s.RootNode().Type()
 	if t != json.TypeMixed {
 		return t
@@ -237,11 +243,16 @@ func actualRootType(s, root *schema.Schema) json.Type {
 		types := make(map[json.Type]struct{}, 2)
 		var tt json.Type
 		for _, tn := range n.GetTypes() {
+			if _, ok := visiting[tn]; ok {
+				return json.TypeMixed
+			}
 			ss, err := root.Type(tn)
 			if err != nil {
 				return json.TypeMixed
 			}
-			tt = actualRootType(ss, root)
+			visiting[tn] = struct{}{}
+			tt = actualRootTypeVisiting(ss, root, visiting)
+			delete(visiting, tn)
 			types[tt] = struct{}{}
 		}
 		if len(types) == 1 { // all USER TYPES (example: @aaa | @bbb) have the same type (example: string)
